@@ -945,18 +945,66 @@ func (e *Engine) box(t types.Type, x string) string {
 	return term
 }
 
-// emit the axioms of the spec db (once per script)
+// The axioms of the spec db are translated at the top of each script (so that the functions they mention are declared
+// there) but only those that are relevant to the function under verification are asserted: an axiom is relevant when one
+// of the spec functions it mentions is used by a contract, assertion or another relevant axiom of this script.
+// (Asserting every axiom everywhere made unrelated queries come back "unknown": some axioms have matching loops.)
+type pendingAxiom struct {
+	name, src, text string
+	funcs           map[*SpecFunc]bool
+}
+
 func (e *Engine) emitAxioms() {
 	for _, ax := range e.specs.Axioms {
 		env := &Env{e: e, pkg: e.pkgTypes(ax.Pkg), st: &State{comps: map[string]string{}, base: "0"}}
+		cur := &pendingAxiom{name: ax.Name, src: ax.Src, funcs: map[*SpecFunc]bool{}}
+		e.curAxiom = cur
 		t, err := env.Bool(ax.Expr)
+		e.curAxiom = nil
 		if err != nil {
 			// the axiom talks about types this package set does not import: it cannot concern these functions
 			continue
 		}
-		e.sc.emit("; axiom " + ax.Name)
-		e.sc.assert(t)
-		e.assume("axiom " + ax.Name + ": " + ax.Src)
+		cur.text = t
+		e.pendingAx = append(e.pendingAx, cur)
+	}
+	e.axSlot = len(e.sc.lines)
+	e.sc.emit("; axioms")
+}
+
+func (e *Engine) finalizeAxioms() {
+	used := map[*SpecFunc]bool{}
+	for f := range e.sfUsed {
+		used[f] = true
+	}
+	done := map[*pendingAxiom]bool{}
+	var out []string
+	for changed := true; changed; {
+		changed = false
+		for _, ax := range e.pendingAx {
+			if done[ax] {
+				continue
+			}
+			rel := len(ax.funcs) == 0
+			for f := range ax.funcs {
+				if used[f] {
+					rel = true
+				}
+			}
+			if !rel {
+				continue
+			}
+			done[ax] = true
+			changed = true
+			for f := range ax.funcs {
+				used[f] = true
+			}
+			out = append(out, "; axiom "+ax.name, "(assert "+ax.text+")")
+			e.assume("axiom " + ax.name + ": " + ax.src)
+		}
+	}
+	if len(out) > 0 && e.axSlot < len(e.sc.lines) {
+		e.sc.lines[e.axSlot] = strings.Join(out, "\n")
 	}
 }
 
@@ -1182,6 +1230,18 @@ func (e *Engine) globalType(s string) types.Type {
 
 // spec functions are looked up in the package of the contract being translated first, then globally (ext specs)
 func (env *Env) specFunc(name string) (*SpecFunc, bool) {
+	sf, ok := env.specFunc0(name)
+	if ok {
+		if env.e.curAxiom != nil {
+			env.e.curAxiom.funcs[sf] = true
+		} else {
+			env.e.sfUsed[sf] = true
+		}
+	}
+	return sf, ok
+}
+
+func (env *Env) specFunc0(name string) (*SpecFunc, bool) {
 	if env.pkg != nil {
 		if sf, ok := env.e.specs.SpecFuncs[env.pkg.Path()+"."+name]; ok {
 			return sf, true
